@@ -376,15 +376,21 @@ def add_lookup_ops(rng, case):
     font = case["font"]
     fnames = [g[0] for g in font]
     ops = case["ops"]
-    look = dict(look=fnames + gen_probes(rng, font))
+    asked = fnames + gen_probes(rng, font)
     called = [n for op in ops for n in op.get("names", []) if n not in fnames]
-    look["look"] += list(dict.fromkeys(called))[:6]
+    asked += list(dict.fromkeys(called))[:6]
+    # a handful of names per op, so that a diverging answer shrinks to a short line
+    looks = [dict(look=asked[j:j + 6]) for j in range(0, len(asked), 6)]
     if case.get("lazy") or (case.get("from_disk") and rng.random() < 0.3):
-        ops.append(look)                     # a font sorted while unread is asked afterwards (asking reads the glyphs)
+        ops.extend(looks)                    # a font sorted while unread is asked afterwards (asking reads the glyphs)
     else:
-        ops.insert(rng.randrange(len(ops) + 1), look)
+        at = rng.randrange(len(ops) + 1)
+        spread = rng.random() < 0.5          # all in one place, or between the sorts (and the allocations below)
+        for look in looks:
+            ops.insert(rng.randrange(len(ops) + 1) if spread else at, look)
+            at += 1
     if rng.random() < 0.3:
-        pool = fnames + look["look"][len(fnames):]
+        pool = asked
         for _ in range(rng.randint(1, 4)):
             ops.insert(rng.randrange(len(ops) + 1), dict(forced=rng.choice(pool)))
         for _ in range(rng.randint(0, 2)):
